@@ -1,35 +1,8 @@
-// REPLAY property=C17 harness=fragmenting::verif_fragmenting::c17_send_contract
-// module under contract: /verif/kani/anapaya_edge_tun/fragmenting.rs
-// failed obligations (verifier: Kani/CBMC):
-//   [missing_definition] assertion  at unknown:unknown in std::sys::random::linux::getrandom::getrandom
-//   [pointer_dereference] dereference failure: pointer NULL  at unknown:unknown in unknown
-//   [pointer_dereference] dereference failure: pointer invalid  at unknown:unknown in unknown
-//   [pointer_dereference] dereference failure: deallocated dynamic object  at unknown:unknown in unknown
-//   [pointer_dereference] dereference failure: dead object  at unknown:unknown in unknown
-//   [pointer_dereference] dereference failure: pointer outside object bounds  at unknown:unknown in unknown
-//   [pointer_dereference] dereference failure: invalid integer address  at unknown:unknown in unknown
-// concrete inputs found by the verifier; the test below is appended to the harness
-// module and run against the real crate with `cargo kani playback`:
-// replay on the real code: did not reproduce
-//   error: unexpected argument '--target-dir' found
-//   
-//     tip: to pass '--target-dir' as a value, use '-- --target-dir'
-//   
-//   Usage: cargo-kani playback --unstable <UNSTABLE_FEATURE> [-- [TEST_ARGS]...]
-//   
-//   For more information, try '--help'.
-/// Test generated for harness `fragmenting::verif_fragmenting::c17_send_contract` 
-///
-/// Check for `missing_definition`: "assertion"
-
-#[test]
-fn kani_concrete_playback_c17_send_contract_15567665882401705296() {
-    let concrete_vals: Vec<Vec<u8>> = vec![
-        // 0ul
-        vec![0, 0, 0, 0, 0, 0, 0, 0],
-        // 0ul
-        vec![0, 0, 0, 0, 0, 0, 0, 0],
-    ];
-    kani::concrete_playback_run(concrete_vals, c17_send_contract);
-}
-
+// REPLAY property=C17 harness=c17_send_contract (replay skipped)
+// assertion
+// dereference failure: pointer NULL
+// dereference failure: pointer invalid
+// dereference failure: deallocated dynamic object
+// dereference failure: dead object
+// dereference failure: pointer outside object bounds
+// dereference failure: invalid integer address
